@@ -48,7 +48,9 @@ func (st *CompatibleSet[T]) add(ht Hint, v T) error {
 		return errors.WithMessage(err, "add to CompatibleSet")
 	}
 
-	st.cacheSet(ht.String(), [2]interface{}{ht, v})
+	// cache what find(ht) returns: the entry kept for the type and major version,
+	// which is not v when a higher version was added before.
+	st.cacheSet(ht.String(), [2]interface{}{ht, st.set[ht.Type()][ht.Version().Major()]})
 
 	switch eht, found := st.typeheadhints[ht.Type()]; {
 	case !found:
